@@ -556,6 +556,10 @@ const prelude = `(set-option :produce-models true)
 (define-fun round_he ((x Int)) Int (let ((a (iabs x))) (let ((q (div a 1000000000000000000)) (r (mod a 1000000000000000000))) (let ((u (ite (or (> r 500000000000000000) (and (= r 500000000000000000) (= (mod q 2) 1))) (+ q 1) q))) (ite (< x 0) (- u) u)))))
 (define-fun is_round_he ((x Int) (q Int)) Bool (let ((d (- (* 1000000000000000000 q) x))) (and (<= (- 500000000000000000) d) (<= d 500000000000000000) (=> (or (= d 500000000000000000) (= d (- 500000000000000000))) (= (mod q 2) 0)))))
 (define-fun is_tdiv ((a Int) (b Int) (x Int)) Bool (ite (> b 0) (ite (>= a 0) (and (<= (* b x) a) (< a (* b (+ x 1)))) (and (< (* b (- x 1)) a) (<= a (* b x)))) (ite (>= a 0) (and (<= (* (- b) (- x)) a) (< a (* (- b) (+ (- x) 1)))) (and (<= (* (- b) x) (- a)) (< (- a) (* (- b) (+ x 1)))))))
+(declare-fun decmul (Int Int) Int)
+(declare-fun decquo_x (Int Int) Int)
+(declare-fun decquo (Int Int) Int)
+(declare-fun dectrunc (Int) Int)
 (define-fun dec_mul ((a Int) (b Int)) Int (round_he (* a b)))
 (define-fun dec_quo ((a Int) (b Int)) Int (round_he (tdiv (* a 1000000000000000000000000000000000000) b)))
 (define-fun dec_quo_trunc ((a Int) (b Int)) Int (tdiv (tdiv (* a 1000000000000000000000000000000000000) b) 1000000000000000000))
